@@ -36,6 +36,13 @@ def get_default_parameters(search_space: vz.SearchSpace) -> vz.ParameterDict:
 
   for pc in builder:
     if pc.default_value is not None:
+      # The builder validates the chosen value for every parameter type except
+      # DOUBLE; do not seed the study with a default outside the domain.
+      if not pc.contains(pc.default_value):
+        raise ValueError(
+            f'Default value {pc.default_value} of parameter {pc.name} is not'
+            ' a feasible value of the parameter.'
+        )
       builder.choose_value(pc.default_value)
     elif pc.type in (
         vz.ParameterType.CATEGORICAL,
